@@ -21,6 +21,7 @@ Step(e) ==
     [] e.ev = "ret" -> MonRet(mon, e)
     [] e.ev = "exc" -> MonExc(mon, e)
     [] e.ev = "stuck" -> MonStuck(mon, e)
+    [] e.ev = "stall" -> MonStall(mon, e)
     [] OTHER -> mon
 
 Next ==
